@@ -44,7 +44,9 @@ META = {
                 'D4 error names', 'D5 the no-reply flag is real',
                 'D6 binding: the cache lookup searches every class of the '
                 'MRO; executeMethod invokes the bound implementation exactly '
-                'once with the decoded arguments (and the caller iff asked)'],
+                'once with the decoded arguments (and the caller iff asked)',
+                'D7 reply packaging: the body holds exactly the declared '
+                'number of return values'],
     'undecided': ['which Python callable a name resolves to at run time '
                   '(class layout of user objects)', 'value encoding under '
                   'the declared return signature'],
@@ -270,6 +272,42 @@ def run(ctx):
                            kind_, want_cls.split('.')[-1]), nontrivial=False)
                 b = check_addressing(ctx, nf.qualname, r, fmsg, kind_)
                 if kind_ == 'return':
+                    rv = ('param', nf.params()[0])
+                    seq = nret1 = None
+                    extra = []
+                    for cn, pol in p.cond:
+                        if kind(cn) == 'call' and cn[1] == 'isinstance' and \
+                                cn[3][0] == rv:
+                            seq = pol
+                        elif kind(cn) == 'cmp' and cn[1] in ('==', '!=') \
+                                and kind(cn[2]) == 'attr' and \
+                                cn[2][2] == 'nret' and cn[3] == C(1):
+                            nret1 = (cn[1] == '==') == pol
+                        else:
+                            extra.append(term_str(cn)[:50])
+                    body = b.get('body')
+                    wrapped = kind(body) == 'list' and \
+                        body[1] == (('item', rv),)
+                    as_is = body == rv
+                    if seq is False:
+                        okp = wrapped
+                    elif seq is True and nret1 is True:
+                        okp = wrapped
+                    elif seq is True and nret1 is False:
+                        okp = as_is
+                    else:
+                        okp = False
+                    ctx.ob('C10.D7', nf.qualname, 'packaging:seq=%s,nret1=%s'
+                           % (seq, nret1), okp and not extra,
+                           'the reply body must hold exactly the declared '
+                           'number of values: a non-sequence result, or any '
+                           'result of a method with ONE declared return '
+                           'value, is wrapped as [result]; a sequence result '
+                           'of a method with several return values is the '
+                           'list of values. This path (result is a sequence: '
+                           '%s, one declared value: %s%s) sends %s' % (
+                               seq, nret1, ', extra condition %s' % extra
+                               if extra else '', term_str(body)[:50]))
                     ok = kind(b.get('signature')) == 'attr' and \
                         b['signature'][2] == 'sigOut'
                     ctx.ob('C10.D2', nf.qualname, 'return-signature', ok,
@@ -316,6 +354,7 @@ def run(ctx):
     ctx.floor('C10.D4', 4)
     ctx.floor('C10.D5', 1)
     ctx.floor('C10.D6', 6)
+    ctx.floor('C10.D7', 3)
 
 
 class _Sub:
